@@ -10,6 +10,7 @@ import (
 	"fmt"
 	"runtime"
 	"sync"
+	"sync/atomic"
 	"time"
 
 	ristretto "github.com/dgraph-io/ristretto/v2"
@@ -32,6 +33,7 @@ type c08Case struct {
 	NKeys       int    `json:"nkeys"`
 	Delays      bool   `json:"delays"`
 	KeyKind     string `json:"key_kind"`
+	DelStorm    bool   `json:"del_storm,omitempty"` // mostly Del and SetWithTTL on TTL keys across several sweep ticks
 	Stream      uint64 `json:"stream"`
 }
 
@@ -61,10 +63,13 @@ var c08Mu sync.Mutex // serialises NewCache (setBufSize is a package variable)
 func runC08(c *Ctx) {
 	r := c.R
 	r.Rule = "episodes = configuration (BufferItems, NumCounters>=2, MaxCost, metrics, callbacks, TTL, write-buffer size, goroutines 2..64, key type, delay injection at hook points) x free-running mix of all 12 listed call kinds on one open cache; oracle = race detector + per-call recover + per-call watchdog; distinct by (configuration class, call kind) actually executed; non-trivial when at least two goroutines ran"
+	// 1-second expiry buckets (sweeps every 0.5 s): the background sweep works on due buckets DURING the episodes,
+	// concurrently with Del / overwrite / Clear of the same TTL keys
+	ristretto.VerifSetBucketSeconds(1)
 	wd := lab.NewWatchdog(65, 60*time.Second, lab.HangExit(r, "C08", c.Out))
 	defer wd.Stop()
 	ristretto.VerifSetHook(func(owner any, point int, arg uint64) {
-		if c08DelayOn {
+		if c08DelayOn.Load() {
 			localDelay()
 		}
 	})
@@ -81,6 +86,11 @@ func runC08(c *Ctx) {
 			KeyKind: lab.Pick(rng, []string{"int", "string"}), Stream: uint64(i),
 		}
 		cs.Ops = c.N(60000, 60000) / cs.Goroutines
+		if i%8 == 6 || c.Arg == "storm" {
+			// many goroutines deleting and re-writing TTL keys while their buckets become due: Del / overwrite vs the sweep
+			cs.DelStorm, cs.TTL, cs.Goroutines, cs.NKeys, cs.MaxCost, cs.SetBuf = true, true, lab.Pick(rng, []int{32, 48, 64}), 100000, 100000000, 32768
+			cs.Ops = 1000
+		}
 		cs.Name = fmt.Sprintf("c08-bi%d-nc%d-mc%d-m%v-cb%v-ttl%v-sb%d-g%d", cs.BufferItems, cs.NumCounters, cs.MaxCost, cs.Metrics, cs.Callbacks, cs.TTL, cs.SetBuf, cs.Goroutines)
 		c.J.Case(cs)
 		if cs.KeyKind == "int" {
@@ -92,7 +102,7 @@ func runC08(c *Ctx) {
 	r.Obs("max_canary_late_ms", wd.MaxLateMs())
 }
 
-var c08DelayOn bool
+var c08DelayOn atomic.Bool // written between episodes, read by hook callers (a load adds no edge between clients)
 
 func c08Episode[K ristretto.Key](c *Ctx, wd *lab.Watchdog, cs c08Case, mk func(int) K) {
 	r := c.R
@@ -114,7 +124,7 @@ func c08Episode[K ristretto.Key](c *Ctx, wd *lab.Watchdog, cs c08Case, mk func(i
 		r.Inconc(1)
 		return
 	}
-	c08DelayOn = cs.Delays
+	c08DelayOn.Store(cs.Delays)
 	var wg sync.WaitGroup
 	type stat struct {
 		calls  [12]int64
@@ -127,8 +137,26 @@ func c08Episode[K ristretto.Key](c *Ctx, wd *lab.Watchdog, cs c08Case, mk func(i
 			defer wg.Done()
 			rng := lab.NewRNG(c.Seed, cs.Stream*1000+uint64(g)+5)
 			st := &stats[g]
-			for i := 0; i < cs.Ops; i++ {
+			type stormKey struct {
+				key    int
+				expSec int64
+			}
+			ring := make([]stormKey, 4096)
+			ringN := 0
+			stormEnd := time.Now().Add(3500 * time.Millisecond) // a del-storm spans several sweeps of due buckets
+			for i := 0; i < cs.Ops || (cs.DelStorm && time.Now().Before(stormEnd)); i++ {
 				op := rng.Intn(100)
+				if cs.DelStorm {
+					// remap: 55% Del, 30% SetWithTTL, 10% Get, 5% the rest
+					switch x := rng.Intn(100); {
+					case x < 55:
+						op = 60 // Del
+					case x < 85:
+						op = 52 // SetWithTTL
+					case x < 95:
+						op = 0 // Get
+					}
+				}
 				k := mk(rng.Intn(cs.NKeys))
 				var kind int
 				call := func(f func()) {
@@ -158,10 +186,32 @@ func c08Episode[K ristretto.Key](c *Ctx, wd *lab.Watchdog, cs c08Case, mk func(i
 					ttl := time.Duration(0)
 					if cs.TTL {
 						ttl = time.Duration(rng.Intn(30)) * time.Millisecond
+						if rng.Chance(0.5) {
+							ttl = time.Duration(200+rng.Intn(1300)) * time.Millisecond
+						}
+					}
+					if cs.DelStorm && ttl > 0 {
+						// remember (own) TTL keys with the wall-clock second in which they expire
+						ki := rng.Intn(cs.NKeys)
+						k = mk(ki)
+						ring[ringN%len(ring)] = stormKey{ki, time.Now().Add(ttl).Unix()}
+						ringN++
 					}
 					call(func() { cache.SetWithTTL(k, v, 1, ttl) })
 				case op < 68:
 					kind = 3
+					if cs.DelStorm && ringN > 0 {
+						// prefer keys whose expiry bucket is due right now: the sweep is about to take (or has just
+						// taken) their bucket
+						now := time.Now().Unix()
+						for tries := 0; tries < 8; tries++ {
+							e := ring[rng.Intn(min(ringN, len(ring)))]
+							if e.expSec < now && e.expSec >= now-2 {
+								k = mk(e.key)
+								break
+							}
+						}
+					}
 					call(func() { cache.Del(k) })
 				case op < 74:
 					kind = 4
